@@ -145,6 +145,45 @@ def gen_case(ctx, k, profiles=('small', 'small', 'med', 'limb')):
     return d, steps, regmap, memmap, dflt
 
 
+def same_name_memories(ctx):
+    """two memories that carry one name (a helper called twice), initial contents given per MemBlock object, simulated on
+    the design and on its synthesized form: every read returns the word of the memory it reads"""
+    rng = ctx.rng
+    for k in range(ctx.n(6, 40)):
+        pyrtl.reset_working_block()
+        aw, dw = rng.choice([1, 2]), rng.choice([3, 8])
+        addr = pyrtl.Input(aw, 'addr')
+        mems = [pyrtl.MemBlock(dw, aw, name='rf', asynchronous=True) for _ in range(2)]
+        for j, m in enumerate(mems):
+            o = pyrtl.Output(dw, 'o%d' % j)
+            o <<= m[addr]
+        init = [{a: rng.getrandbits(dw) | 1 for a in range(1 << aw) if rng.random() < 0.8} for _ in mems]
+        blk = pyrtl.working_block()
+        variants = [('original', blk)]
+        try:
+            variants.append(('synthesized', pyrtl.synthesize(update_working_block=False, block=blk)))
+        except Exception:  # noqa (C03)
+            pass
+        for label, b in variants:
+            replay = {'kind': 'same-name-memories', 'variant': label, 'aw': aw, 'dw': dw, 'init': [{str(a): v for a, v in i_.items()} for i_ in init]}
+            try:
+                sim = pyrtl.Simulation(block=b, tracer=pyrtl.SimulationTrace(block=b),
+                                       memory_value_map={m: dict(i_) for m, i_ in zip(mems, init)})
+                for a in range(1 << aw):
+                    sim.step({'addr': a})
+                    ctx.evaluations += 1
+                    got = [sim.inspect('o0'), sim.inspect('o1')]
+                    want = [init[0].get(a, 0), init[1].get(a, 0)]
+                    if got != want:
+                        ctx.violation('same-name-memories:' + label, 'two memories named rf with initial contents per MemBlock (%s block): reads at '
+                                      'address %d give %r, the contents are %r' % (label, a, got, want), replay)
+                        return
+            except Exception as e:  # noqa
+                ctx.violation('same-name-memories-raises:' + label, 'Simulation of the %s block with two memories of one name raised %s: %s' % (
+                    label, type(e).__name__, str(e)[:140]), replay)
+                return
+
+
 def main(ctx):
     proofs_ok = proof_gate(ctx, gen_modules=['SimpleFunc'])
     n = ctx.n(1000, 20000)
@@ -177,6 +216,7 @@ def main(ctx):
         ctx.sample({'design': desc, 'cycles': len(steps), 'default': dflt, 'agree': ok})
         if len(ctx.violations) >= 5:
             break
+    same_name_memories(ctx)
     tie_bad = getattr(ctx, 'tie_mismatch', 0)
     ctx.oblige('tie:Simulation=PySim(order of the simulator)', tie_bad == 0,
                '%d/%d cases disagree' % (tie_bad, getattr(ctx, 'tie_cases', 0)))
